@@ -8,6 +8,7 @@ import (
 	"net"
 
 	"example.com/scion-time/net/ntske"
+	"example.com/scion-time/net/scion"
 )
 
 // Verification hooks for property C20.
@@ -23,4 +24,10 @@ func VerifC20NewNTSKEMsg(ctx context.Context, log *slog.Logger,
 func VerifC20RunNTSKEServerTLS(ctx context.Context, log *slog.Logger,
 	listener net.Listener, localPort int, provider *ntske.Provider) {
 	runNTSKEServerTLS(ctx, log, listener, localPort, provider)
+}
+
+// VerifC20RunNTSKEServerQUIC exposes the accept loop of the NTS-KE server over QUIC/SCION.
+func VerifC20RunNTSKEServerQUIC(ctx context.Context, log *slog.Logger,
+	listener *scion.QUICListener, localPort int, provider *ntske.Provider) {
+	runNTSKEServerQUIC(ctx, log, listener, localPort, provider)
 }
